@@ -285,3 +285,46 @@ pub fn on_restricted_thread<T: Send>(cpus: usize, stack: usize, f: impl FnOnce()
             .ok()?
     })
 }
+
+/// Wraps the signer's byte source with a budget: a `sign` call that has drawn more than
+/// `SIGN_BUDGET` bytes (about a thousand complete attempts) is not going to terminate, and is
+/// stopped by a panic with a recognisable message instead of hanging the run. An honest signer
+/// needs one attempt, rarely two; the forcing streams of this harness a handful.
+pub const SIGN_BUDGET: usize = 32 << 20;
+pub const SIGN_BUDGET_MESSAGE: &str = "the signer drew more than 32 MiB from its random generator in one call: sign does not terminate";
+
+pub struct Budget {
+    inner: Box<dyn RngCore>,
+    left: usize,
+}
+
+impl Budget {
+    pub fn new(inner: Box<dyn RngCore>) -> Self {
+        Budget { inner, left: SIGN_BUDGET }
+    }
+    fn spend(&mut self, n: usize) {
+        if self.left < n {
+            panic!("{}", SIGN_BUDGET_MESSAGE);
+        }
+        self.left -= n;
+    }
+}
+
+impl RngCore for Budget {
+    fn next_u32(&mut self) -> u32 {
+        self.spend(1);
+        self.inner.next_u32()
+    }
+    fn next_u64(&mut self) -> u64 {
+        self.spend(1);
+        self.inner.next_u64()
+    }
+    fn fill_bytes(&mut self, dest: &mut [u8]) {
+        self.spend(dest.len());
+        self.inner.fill_bytes(dest)
+    }
+    fn try_fill_bytes(&mut self, dest: &mut [u8]) -> Result<(), rand::Error> {
+        self.fill_bytes(dest);
+        Ok(())
+    }
+}
